@@ -251,6 +251,11 @@ impl Store {
     fn tmp_file(&self) -> Result<NamedTempFile, Failed> {
         let tmp_dir = self.path.join(Self::TMP_BASE);
         fatal::create_dir_all(&tmp_dir)?;
+        #[cfg(routinator_verif)]
+        if crate::verif::buggify("store.tmp_file") {
+            error!("Fatal: injected failure creating a temporary file");
+            return Err(Failed)
+        }
         NamedTempFile::new_in(&tmp_dir).map_err(|err| {
             error!(
                 "Fatal: failed to create temporary file in {}: {}",
@@ -799,6 +804,11 @@ impl StoredPoint {
         manifest_uri: &uri::Rsync,
         rpki_notify: Option<&uri::Https>,
     ) -> Result<Self, Failed> {
+        #[cfg(routinator_verif)]
+        if crate::verif::buggify("store.point.open") {
+            error!("Fatal: injected failure opening {}", path.display());
+            return Err(Failed)
+        }
         let mut file = match File::open(&path) {
             Ok(file) => BufReader::new(file),
             Err(ref err) if err.kind() == io::ErrorKind::NotFound => {
@@ -1021,6 +1031,11 @@ impl StoredPoint {
                 return Err(UpdateError::fatal())
             }
         };
+        #[cfg(routinator_verif)]
+        if crate::verif::buggify("store.update.write") {
+            error!("Fatal: injected failure writing the temporary file");
+            return Err(UpdateError::fatal())
+        }
         while let Some(object) = objects()? {
             if let Err(err) = object.write(&mut tmp_file) {
                 error!(
@@ -1043,6 +1058,11 @@ impl StoredPoint {
         // I think we need to drop `self.file` first so it gets closed and the
         // path unlocked on Windows?
         drop(self.file.take());
+        #[cfg(routinator_verif)]
+        if crate::verif::buggify("store.update.persist") {
+            error!("Fatal: injected failure persisting the temporary file");
+            return Err(UpdateError::fatal())
+        }
         #[cfg(routinator_verif)]
         crate::verif::kill_point("store.update.before-persist");
         match tmp_file.persist(&self.path) {
